@@ -702,6 +702,7 @@ package types
 //@   for C12
 //@   uses argmaxIsMember
 //@   uses argmaxIsMax
+//@   opt opaque=argmaxVal,argmaxIdx
 //@   requires wfVals(vs) && len(vs.Validators) > 0 && distinctVals(vs) && stepBounds(vs)
 //@   modifies Validator.ProposerPriority, vs.totalVotingPower
 //@   ensures [proposerIsMember] exists k int :: 0 <= k && k < len(vs.Validators) && r == vs.Validators[k]
